@@ -27,6 +27,8 @@ var Solvers = []Solver{
 }
 
 type SolveOpts struct {
+	Progress   func(o *Obligation)
+	NoEscalate bool
 	TimeoutMs  int
 	WorkDir    string
 	SecondOpin bool // thorough: every unsat confirmed by a second solver
@@ -40,21 +42,19 @@ func oblQuery(o *Obligation) string {
 	return And(o.Hyp, Not(o.Goal))
 }
 
-// batchScript renders all obligations of a VC as one incremental script.
-func batchScript(vc *VC, obls []*Obligation, models bool) string {
+// queryScript renders one obligation with only its cone of influence.
+func QueryScript(vc *VC, o *Obligation, models bool) string { return queryScript(vc, o, models) }
+
+func queryScript(vc *VC, o *Obligation, models bool) string {
 	var b strings.Builder
 	if models {
 		b.WriteString("(set-option :produce-models true)\n")
 	}
-	b.WriteString(vc.Prelude())
-	for _, o := range obls {
-		b.WriteString("(push 1)\n")
-		fmt.Fprintf(&b, "(assert %s)\n", oblQuery(o))
-		b.WriteString("(check-sat)\n")
-		if models {
-			b.WriteString("(get-model)\n")
-		}
-		b.WriteString("(pop 1)\n")
+	q := oblQuery(o)
+	b.WriteString(vc.Slice(q))
+	fmt.Fprintf(&b, "(assert %s)\n(check-sat)\n", q)
+	if models {
+		b.WriteString("(get-model)\n")
 	}
 	return b.String()
 }
@@ -64,7 +64,7 @@ func runSolver(s Solver, file string, timeoutMs int, nQueries int) (string, erro
 }
 
 func runSolverCtx(parent context.Context, s Solver, file string, timeoutMs int, nQueries int) (string, error) {
-	hard := time.Duration(timeoutMs*nQueries+10000) * time.Millisecond
+	hard := time.Duration(timeoutMs*nQueries+5000) * time.Millisecond
 	ctx, cancel := context.WithTimeout(parent, hard)
 	defer cancel()
 	cmd := exec.CommandContext(ctx, s.Bin, s.Args(timeoutMs, file)...)
@@ -75,7 +75,6 @@ func runSolverCtx(parent context.Context, s Solver, file string, timeoutMs int, 
 	if ctx.Err() != nil {
 		return out.String(), fmt.Errorf("hard timeout")
 	}
-	// z3 exits non-zero on (error ...) lines; we parse the output regardless
 	_ = err
 	return out.String(), nil
 }
@@ -88,13 +87,21 @@ func parseAnswers(out string) (answers []string, errs []string) {
 		case t == "sat" || t == "unsat" || t == "unknown" || t == "timeout":
 			answers = append(answers, t)
 		case strings.HasPrefix(t, "(error"):
+			if strings.Contains(t, "model is not available") || strings.Contains(t, "Cannot get model") {
+				continue
+			}
 			errs = append(errs, t)
 		}
 	}
 	return
 }
 
-// Solve discharges all obligations of a VC.
+// global limit on concurrently running solver processes
+var solverSlots = make(chan struct{}, 16)
+
+// Solve discharges all obligations of a VC: every obligation is sent, with only its
+// cone of influence, to z3 5.1 and cvc5 in parallel (first definite answer wins);
+// what stays undecided is escalated to all three solvers with a longer timeout.
 func Solve(vc *VC, opts SolveOpts) error {
 	if len(vc.Obls) == 0 {
 		return nil
@@ -102,122 +109,62 @@ func Solve(vc *VC, opts SolveOpts) error {
 	if opts.TimeoutMs == 0 {
 		opts.TimeoutMs = 10000
 	}
-	dir := opts.WorkDir
-	base := filepath.Join(dir, sanitize(vc.Unit))
-	batchTimeout := opts.TimeoutMs
-	if batchTimeout > 3000 {
-		batchTimeout = 3000
+	base := filepath.Join(opts.WorkDir, sanitize(vc.Unit))
+	first := opts.TimeoutMs
+	if first > 4000 {
+		first = 4000
 	}
-	const chunk = 8
-	type batchRes struct {
-		solver  string
-		lo      int
-		answers []string
-		errs    []string
-		dur     float64
-	}
-	batchSolvers := []Solver{Solvers[0], Solvers[1]}
-	var jobs int
-	resC := make(chan batchRes, 2*(len(vc.Obls)/chunk+1))
-	sem0 := make(chan struct{}, 14)
-	for lo := 0; lo < len(vc.Obls); lo += chunk {
-		hi := lo + chunk
-		if hi > len(vc.Obls) {
-			hi = len(vc.Obls)
-		}
-		file := fmt.Sprintf("%s.b%d.smt2", base, lo)
-		if err := os.WriteFile(file, []byte(batchScript(vc, vc.Obls[lo:hi], false)), 0o644); err != nil {
-			return err
-		}
-		for _, bs := range batchSolvers {
-			jobs++
-			go func(bs Solver, lo, n int, file string) {
-				sem0 <- struct{}{}
-				defer func() { <-sem0 }()
-				t1 := time.Now()
-				out, _ := runSolver(bs, file, batchTimeout, n)
-				a, e := parseAnswers(out)
-				resC <- batchRes{bs.Name, lo, a, e, time.Since(t1).Seconds()}
-			}(bs, lo, hi-lo, file)
-		}
-	}
-	for _, o := range vc.Obls {
-		o.Status = "unknown"
-		o.Solver = ""
-	}
-	errCount := map[int][]string{}
-	for j := 0; j < jobs; j++ {
-		b := <-resC
-		if len(b.errs) > 0 {
-			errCount[b.lo] = append(errCount[b.lo], b.solver+": "+b.errs[0])
-			continue
-		}
-		for k, a := range b.answers {
-			i := b.lo + k
-			if i >= len(vc.Obls) || (a != "sat" && a != "unsat") {
-				continue
-			}
-			o := vc.Obls[i]
-			if (o.Status == "sat" || o.Status == "unsat") && o.Status != a {
-				return fmt.Errorf("solvers disagree on %s", o.Name)
-			}
-			if o.Status == "unknown" {
-				o.Status, o.Solver, o.TimeS = a, b.solver, b.dur/float64(len(b.answers))
-			} else if a == "unsat" {
-				o.Solver += "+" + b.solver
-			}
-		}
-	}
-	for lo, es := range errCount {
-		if len(es) == len(batchSolvers) {
-			return fmt.Errorf("solver error in %s.b%d.smt2: %s", base, lo, strings.Join(es, "; "))
-		}
-	}
-	for _, o := range vc.Obls {
-		if o.Solver == "" {
-			o.Solver = "-"
-		}
-	}
-	// retry everything that is not the expected answer individually, racing the other solvers
 	var wg sync.WaitGroup
-	sem := make(chan struct{}, 8)
 	var mu sync.Mutex
 	var firstErr error
-	for i, o := range vc.Obls {
-		want := "unsat"
-		if o.Cover {
-			want = "sat"
-		}
-		need := o.Status != want
-		if o.Cover && o.Status == "unknown" {
-			need = false // reachability covers with quantified hypotheses are rarely decided; do not escalate
-		}
-		if opts.SecondOpin && !o.Cover && o.Status == "unsat" && !strings.Contains(o.Solver, "+") {
-			need = true
-		}
-		if !need {
-			continue
-		}
-		wg.Add(1)
-		go func(i int, o *Obligation) {
-			defer wg.Done()
-			sem <- struct{}{}
-			defer func() { <-sem }()
-			if err := solveOne(vc, o, fmt.Sprintf("%s.%d", base, i), opts); err != nil {
-				mu.Lock()
-				if firstErr == nil {
-					firstErr = err
-				}
-				mu.Unlock()
-			}
-		}(i, o)
+	type job struct {
+		i int
+		o *Obligation
 	}
+	jobs := make(chan job)
+	workers := 12
+	for w := 0; w < workers; w++ {
+		wg.Add(1)
+		go func() {
+			defer wg.Done()
+			for j := range jobs {
+				i, o := j.i, j.o
+				fb := fmt.Sprintf("%s.%d", base, i)
+				need2 := opts.SecondOpin && !o.Cover
+				err := solveOne(vc, o, fb, []Solver{Solvers[0], Solvers[1]}, first, need2, false)
+				want := "unsat"
+				if o.Cover {
+					want = "sat"
+				}
+				if err == nil && o.Status != want && !(o.Cover && o.Status == "unknown") && !opts.NoEscalate {
+					// escalate: all solvers, longer timeout, models
+					err = solveOne(vc, o, fb+".x", Solvers, opts.TimeoutMs*3, need2, true)
+				} else if err == nil && need2 && o.Status == "unsat" && !strings.Contains(o.Solver, "+") {
+					err = solveOne(vc, o, fb+".x", Solvers, opts.TimeoutMs*3, true, false)
+				}
+				if opts.Progress != nil {
+					opts.Progress(o)
+				}
+				if err != nil {
+					mu.Lock()
+					if firstErr == nil {
+						firstErr = err
+					}
+					mu.Unlock()
+				}
+			}
+		}()
+	}
+	for i, o := range vc.Obls {
+		jobs <- job{i, o}
+	}
+	close(jobs)
 	wg.Wait()
 	return firstErr
 }
 
-// solveOne races all solvers on a single obligation and extracts a model on sat.
-func solveOne(vc *VC, o *Obligation, base string, opts SolveOpts) error {
+// solveOne races the given solvers on a single obligation.
+func solveOne(vc *VC, o *Obligation, base string, solvers []Solver, timeoutMs int, needTwo bool, models bool) error {
 	type ans struct {
 		solver string
 		status string
@@ -225,36 +172,49 @@ func solveOne(vc *VC, o *Obligation, base string, opts SolveOpts) error {
 		t      float64
 		errs   []string
 	}
-	script := batchScript(vc, []*Obligation{o}, true)
-	results := make(chan ans, len(Solvers))
+	script := queryScript(vc, o, models)
+	results := make(chan ans, len(solvers))
 	ctx, cancel := context.WithCancel(context.Background())
 	defer cancel()
-	for si, s := range Solvers {
-		go func(si int, s Solver) {
-			file := fmt.Sprintf("%s.%d.smt2", base, si)
-			sc := script
-			if s.Bin == "cvc5" {
-				sc = strings.Replace(sc, "(set-option :produce-models true)\n", "", 1)
+	file := base + ".smt2"
+	if err := os.WriteFile(file, []byte(script), 0o644); err != nil {
+		return err
+	}
+	cfile := file
+	if models {
+		cfile = base + ".c.smt2"
+		os.WriteFile(cfile, []byte(strings.Replace(script, "(set-option :produce-models true)\n", "", 1)), 0o644)
+	}
+	for _, s := range solvers {
+		go func(s Solver) {
+			solverSlots <- struct{}{}
+			defer func() { <-solverSlots }()
+			if ctx.Err() != nil {
+				results <- ans{solver: s.Name, status: "unknown"}
+				return
 			}
-			os.WriteFile(file, []byte(sc), 0o644)
+			f := file
+			if s.Bin == "cvc5" {
+				f = cfile
+			}
 			t0 := time.Now()
-			out, _ := runSolverCtx(ctx, s, file, opts.TimeoutMs*3, 1)
+			out, _ := runSolverCtx(ctx, s, f, timeoutMs, 1)
 			a, errs := parseAnswers(out)
 			r := ans{solver: s.Name, status: "unknown", t: time.Since(t0).Seconds(), errs: errs}
 			if len(a) > 0 {
 				r.status = a[0]
 			}
-			if r.status == "sat" {
+			if r.status == "sat" && models {
 				if k := strings.Index(out, "sat"); k >= 0 {
 					r.model = strings.TrimSpace(out[k+3:])
 				}
 			}
 			results <- r
-		}(si, s)
+		}(s)
 	}
 	var got []ans
 	nUnsat := 0
-	for range Solvers {
+	for range solvers {
 		r := <-results
 		got = append(got, r)
 		if r.status == "sat" {
@@ -262,14 +222,14 @@ func solveOne(vc *VC, o *Obligation, base string, opts SolveOpts) error {
 		}
 		if r.status == "unsat" {
 			nUnsat++
-			if !opts.SecondOpin || nUnsat >= 2 {
+			if !needTwo || nUnsat >= 2 {
 				break
 			}
 		}
 	}
 	cancel()
-	// definite answers win; disagreement between definite answers is an engine error
 	var sat, unsat *ans
+	var unsatNames []string
 	for i := range got {
 		switch got[i].status {
 		case "sat":
@@ -280,6 +240,7 @@ func solveOne(vc *VC, o *Obligation, base string, opts SolveOpts) error {
 			if unsat == nil {
 				unsat = &got[i]
 			}
+			unsatNames = append(unsatNames, got[i].solver)
 		}
 	}
 	if sat != nil && unsat != nil {
@@ -287,30 +248,22 @@ func solveOne(vc *VC, o *Obligation, base string, opts SolveOpts) error {
 	}
 	switch {
 	case unsat != nil:
-		o.Status, o.Solver, o.TimeS = "unsat", unsat.solver, unsat.t
-		if opts.SecondOpin {
-			n := 0
-			var names []string
-			for _, g := range got {
-				if g.status == "unsat" {
-					n++
-					names = append(names, g.solver)
-				}
-			}
-			o.Solver = strings.Join(names, "+")
-		}
+		o.Status, o.Solver, o.TimeS = "unsat", strings.Join(unsatNames, "+"), unsat.t
 	case sat != nil:
 		o.Status, o.Solver, o.TimeS, o.Model = "sat", sat.solver, sat.t, sat.model
 	default:
 		o.Status = "unknown"
+		if o.Solver == "" {
+			o.Solver = "-"
+		}
 		var all []string
 		for _, g := range got {
 			if len(g.errs) > 0 {
 				all = append(all, g.solver+": "+g.errs[0])
 			}
 		}
-		if len(all) == len(Solvers) {
-			return fmt.Errorf("all solvers report errors on %s: %s", o.Name, strings.Join(all, " | "))
+		if len(all) == len(solvers) && len(all) > 0 {
+			return fmt.Errorf("all solvers report errors on %s (%s): %s", o.Name, file, strings.Join(all, " | "))
 		}
 	}
 	return nil
